@@ -55,6 +55,8 @@ type mCode struct {
 type model struct {
 	reqs  []*mReq
 	codes []*mCode
+	// emptySecretOK: the storage of this case accepts an empty presented secret for a client that holds none
+	emptySecretOK bool
 }
 
 // ---- caller identity --------------------------------------------------------------
@@ -123,6 +125,22 @@ func (w wire) bare() (via, id string) {
 
 func public(c *vkit.ClientSpec) bool { return c.AuthMethod == "none" }
 
+// oddMethod: the registration names none of the four token endpoint authentication methods the OP implements (the zero
+// value of a registration that never set it, client_secret_jwt, tls_client_auth, a misspelling ...). Such a client is not
+// public (public = "none"), so somebody has to be authenticated as it; how, the statement does not say.
+func oddMethod(c *vkit.ClientSpec) bool {
+	switch c.AuthMethod {
+	case "client_secret_basic", "client_secret_post", "private_key_jwt", "none":
+		return false
+	}
+	return true
+}
+
+// rightSecret: the wire carries the (non-empty) secret registered for c, in the Basic header or in the form.
+func rightSecret(w wire, c *vkit.ClientSpec) bool {
+	return c.Secret != "" && ((w.hasBasic && w.basicID == c.ID && w.basicSec == c.Secret) || (w.bodyID == c.ID && w.bodySec == c.Secret))
+}
+
 // proves: the wire carries a valid credential of c (public client: names c).
 func proves(w wire, c *vkit.ClientSpec) bool {
 	switch c.AuthMethod {
@@ -141,12 +159,26 @@ func proves(w wire, c *vkit.ClientSpec) bool {
 	case "none":
 		return w.claimed()[c.ID]
 	}
-	return false
+	// a method the OP does not implement: the only credential of c that exists on this wire is its secret
+	return rightSecret(w, c)
 }
 
 // callerIs: +1 the caller is cleanly client r (its registered method, no second identity),
 // -1 the caller is not authenticated as / does not identify as r, 0 the statement is silent (mixed presentation).
-func callerIs(w wire, r *vkit.ClientSpec, all []vkit.ClientSpec) (int, string) {
+func callerIs(w wire, r *vkit.ClientSpec, all []vkit.ClientSpec, emptySecretOK bool) (int, string) {
+	if oddMethod(r) {
+		// r is confidential, registered for a method the OP does not implement. A caller that presents neither r's non-empty
+		// secret nor anything else that could be a credential of r has proved nothing: refused (below). With the right secret
+		// the statement is silent (it does not say how such a client authenticates): grey.
+		if proves(w, r) {
+			return 0, "unregistered-auth-method:right-secret"
+		}
+		if emptySecretOK && r.Secret == "" && w.claimed()[r.ID] && !w.hasAssertion {
+			// r holds no secret and the storage of this case vouches for an empty one (RFC 6749 2.3.1 allows an empty secret to
+			// be omitted): the storage, not the OP, decided that this is r
+			return 0, "unregistered-auth-method:storage-accepts-empty-secret"
+		}
+	}
 	if !proves(w, r) {
 		for i := range all {
 			if all[i].ID != r.ID && proves(w, &all[i]) {
@@ -253,7 +285,7 @@ func (m *model) judge(a attempt, clients []vkit.ClientSpec) verdict {
 	if rq.user == "" {
 		no = append(no, "request-not-completed")
 	}
-	cv, why := callerIs(a.w, r, clients)
+	cv, why := callerIs(a.w, r, clients, m.emptySecretOK)
 	switch cv {
 	case -1:
 		no = append(no, why)
